@@ -181,6 +181,9 @@ func getFlt() (*fltEnv, error) {
 		mk("upstream", ProxyOpts{Upstream: "http://" + e.upstream.Addr})
 		mk("mitm-upstream", ProxyOpts{MITM: true, Upstream: "http://" + e.upstream.Addr})
 		mk("deadup", ProxyOpts{Upstream: "http://" + e.refused})
+		mk("direct+bodylog", ProxyOpts{LogHTTPMode: "body"})
+		mk("upstream+bodylog", ProxyOpts{Upstream: "http://" + e.upstream.Addr, LogHTTPMode: "body"})
+		mk("mitm+bodylog", ProxyOpts{MITM: true, LogHTTPMode: "body"})
 		// a PROXY-protocol listener (C13: connections that never get past the header are accounted like any other)
 		mk("pp", ProxyOpts{ProxyProtocol: &forwarder.ProxyProtocolConfig{ReadHeaderTimeout: 150 * time.Millisecond}})
 		if fltErr == nil {
@@ -207,6 +210,8 @@ type FltExch struct {
 	K      int     `json:"k"`      // cut / rst: bytes of the raw reply sent before the fault (-1: in the middle of the body, -2: one byte short)
 	Code   int     `json:"code,omitempty"`
 	Var    int     `json:"var,omitempty"` // tls-hostile: index into hostileTLSReplies
+	// BodyLog: the proxy runs with --log-http=body (every message body passes through the logging middleware)
+	BodyLog bool `json:"body_log,omitempty"`
 	Resp   FltResp `json:"resp"`
 	Follow bool    `json:"follow"` // after a complete reply on a connection left open, send a second, fault-free request
 }
@@ -247,6 +252,9 @@ func genFltExch(t *rapid.T) FltExch {
 		faults = []string{"none", "upstream-reject", "upstream-reject", "upstream-reject", "cut", "rst"}
 	}
 	x.Fault = rapid.SampledFrom(faults).Draw(t, "fault")
+	if x.Route == "direct" || x.Route == "upstream" || x.Route == "mitm" {
+		x.BodyLog = rapid.IntRange(0, 4).Draw(t, "bodylog") == 0
+	}
 	if x.Fault == "tls-hostile" {
 		x.Var = rapid.IntRange(0, len(hostileTLSReplies)-1).Draw(t, "hostilereply")
 	}
@@ -369,6 +377,9 @@ func buildFltReply(x FltExch, vid string, id uint32) (raw []byte, body []byte, h
 
 func (e *fltEnv) exchange(x FltExch, id int64, idx int) (o fltOutcome) {
 	px := e.proxies[x.Route]
+	if x.BodyLog {
+		px = e.proxies[x.Route+"+bodylog"]
+	}
 	vid := fmt.Sprintf("%d-%d", id, idx)
 	host := fltHost(x)
 	raw, body, headLen := buildFltReply(x, vid, uint32(id)*13+uint32(idx))
@@ -650,7 +661,7 @@ func runC12(c C12Case) (fails []vstat.Failure) {
 
 func classifyC12(c C12Case) (bool, string, []string) {
 	x := c.Exch
-	cls := []string{"route-" + x.Route, "fault-" + x.Fault, "method-" + x.Method}
+	cls := []string{"route-" + x.Route, "fault-" + x.Fault, "method-" + x.Method, fmt.Sprintf("bodylog=%v", x.BodyLog)}
 	nt := false
 	if x.Fault == "cut" || x.Fault == "rst" {
 		switch {
